@@ -318,6 +318,9 @@ theorem C09_cmp_dispatch (ops : FloatOps UInt64) :
   refine ⟨fun t xs t' ys => rfl, fun t xs b h => ?_, fun a b h => ?_, fun a b c h => ?_, rfl, rfl, rfl, rfl, rfl⟩
   · cases b <;> first | rfl | (exact absurd rfl (h _ _))
   · cases a <;> cases b <;> simp_all [cmpTop, comparable]
+    rename_i t xs t' ys
+    obtain ⟨rfl, hz⟩ := h
+    simp [hz, valCmp]
   · by_cases hc : comparable a b = true
     · exact Or.inr hc
     · left
@@ -326,6 +329,17 @@ theorem C09_cmp_dispatch (ops : FloatOps UInt64) :
       by_cases ht : t = t' ∧ plainSize t ≠ 0
       · exact ⟨t, xs, ys, rfl, by rw [ht.1]⟩
       · rw [if_neg ht] at h; cases h
+
+/-- plain structs as container elements (second-round audit item 2; its C run `new(Array, P, $(P,1,2), $(P,3,4))` against
+    `… $(P,3,5)`: -1 / 1 / 0): of kind `seq (plain 1)` — one struct type of non-zero size — compared bytewise element by element;
+    a size-0 struct type has NO kind (`cmp` of two such objects raises TypeError) -/
+example :
+    let a : Val := .seq .array [.plain 1 [1, 2, 0, 0], .plain 1 [3, 4, 0, 0]]
+    let b : Val := .seq .list [.plain 1 [1, 2, 0, 0], .plain 1 [3, 5, 0, 0]]
+    hasKind (.seq (.plain 1)) a ∧ hasKind (.seq (.plain 1)) b ∧ valCmp refFloatOps a b = -1 ∧ valCmp refFloatOps b a = 1 ∧
+      valCmp refFloatOps a a = 0 ∧ a.valid = true ∧ comparable a b = true ∧
+      (∀ bs, ¬ hasKind (.plain 0) (.plain 0 bs)) ∧ comparable (.seq .array [.plain 0 []]) (.seq .array [.plain 0 []]) = false := by
+  refine ⟨?_, ?_, by decide, by decide, by decide, by decide, by decide, ?_, by decide⟩ <;> simp [hasKind, plainSize]
 
 /-- non-vacuity of `C09_val`: concrete nested values of one kind, with boundary integers, a prefix string, bytes > 127 -/
 example :
@@ -351,17 +365,30 @@ def C09_tuple_walk_content_statement : Prop :=
   ∀ (ops : FloatOps UInt64) (fuel : Nat) (a b : Obj), a.size ≤ fuel →
     objCmpF sourceDiscipline ops fuel a b = some (valCmp ops a.content b.content)
 
-/-- **C09 (aliasing), proved part.** With the loops as they are in the source now — Tuple_Cmp advances along `self` by slot
-    index (`sourceDiscipline.tupleSelf = .byIndex`: this `rfl` is what a change of the loop breaks), Array_Cmp / List_Cmp
-    through their positional iterators — `cmp(self, obj)` ends within `size self` steps and is `valCmp` of the two
-    contents, for EVERY `self`: whatever objects its Tuples reference from several slots, at any depth, whatever it
-    shares with `obj`, also when `self` and `obj` are one object.  Hypothesis on `obj` only: no Tuple inside it — at top
-    level, as a slot of another Tuple, as an element of an Array / List, as a value of a Tree, at any depth (`Obj.nodup`
-    recurses through `tuple`, `cont` and `tree`) — references one object from two slots (`obj` is walked through
-    `iter_next`, which for a Tuple searches by identity). -/
+/-- **C09 (aliasing), proved part — on exactly the complement of the finding's territory.** With the loops as they are in the
+    source now — Tuple_Cmp advances along `self` by slot index (`sourceDiscipline.tupleSelf = .byIndex`: this `rfl` is what a
+    change of the loop breaks), Array_Cmp / List_Cmp through their positional iterators — `cmp(self, obj)` ends within
+    `size self` steps and is `valCmp` of the two contents, for EVERY `self`: whatever objects its Tuples reference from several
+    slots, at any depth, whatever it shares with `obj`, also when `self` and `obj` are one object.  Hypothesis
+    `obj.walkClean ops self` (decidable, Cello/Cmp.lean): the walk never steps from a slot of a Tuple inside `obj` whose object
+    already sits in an EARLIER slot of that Tuple — the only situation in which Tuple_Iter_Next misplaces the cursor — except
+    for the one step after which `self` has ended and `obj` has not (the misplaced cursor is then only asked whether it is
+    Terminal, and it is not).  A Tuple with a repeated object in `obj` is fine as long as the comparison is decided before
+    the walk leaves the second occurrence: second-round audit item 1.  (Round before: hypothesis `obj.nodup`, strictly
+    stronger — `C09_walk_clean_of_nodup`, and `C09_walk_clean_beyond_nodup` for the difference.) -/
 theorem C09_tuple_walk_content_partial (ops : FloatOps UInt64) (fuel : Nat) (a b : Obj) (hf : a.size ≤ fuel)
+    (hb : b.walkClean ops a = true) : objCmpF sourceDiscipline ops fuel a b = some (valCmp ops a.content b.content) :=
+  objCmpF_eq_content_clean sourceDiscipline ops rfl fuel a b hf hb
+
+/-- `obj.nodup` (no Tuple inside `obj`, at any depth, references one object from two slots) implies a clean walk against
+    every `self`: the hypothesis of the rounds before is a special case -/
+theorem C09_walk_clean_of_nodup (ops : FloatOps UInt64) (a b : Obj) (hb : b.nodup = true) : b.walkClean ops a = true :=
+  walkClean_of_nodup ops a b hb
+
+/-- … so the statement under `obj.nodup`, for every `self` at once, still stands -/
+theorem C09_tuple_walk_content_nodup (ops : FloatOps UInt64) (fuel : Nat) (a b : Obj) (hf : a.size ≤ fuel)
     (hb : b.nodup = true) : objCmpF sourceDiscipline ops fuel a b = some (valCmp ops a.content b.content) :=
-  objCmpF_eq_content sourceDiscipline ops rfl fuel a b hf hb
+  C09_tuple_walk_content_partial ops fuel a b hf (C09_walk_clean_of_nodup ops a b hb)
 
 /-- witnesses used below: `one`, `two` are Int objects; `sharedT = tuple(one, one, two)`, `sharedP = tuple(one, one)`;
     `arrOfT = new(Array, Tuple, sharedT)`, `lstOfT = new(List, Tuple, sharedT)`, `treeOfT = new(Tree, Int, Tuple, $I(7), sharedT)`:
@@ -378,6 +405,14 @@ def lstOfT : Obj := .cont .list [(11, sharedT)]
 def treeOfT : Obj := .tree [(.int 7, sharedT)]
 def arrOfFresh : Obj := .cont .array [(12, .tuple [(3, wOne), (4, wOne), (5, wTwo)])]
 def treeOfFresh : Obj := .val (.tree [(.int 7, .seq .tuple [.int 1, .int 1, .int 2])])
+/-- `sharedC = tuple(one, two, one)`; fresh Tuples of Ints as `self` -/
+def sharedC : Obj := .tuple [(1, wOne), (2, wTwo), (1, wOne)]
+def freshT (xs : List Int) : Obj := .val (.seq .tuple (xs.map fun x => .int (BitVec.ofInt 64 x)))
+/-- `tuple(one, one, one)` -/
+def sharedO : Obj := .tuple [(1, wOne), (1, wOne), (1, wOne)]
+
+/-- closed-term evaluation through definitions of any reducibility -/
+local macro "evalrfl" : tactic => `(tactic| with_unfolding_all rfl)
 
 /-- non-vacuity: a Tuple with one object in two slots as `self`, against an Array, a Tuple that shares its objects, and a
     nested Tuple that holds the shared Tuple twice; an Array / a Tree holding such a Tuple as `self` against one that does
@@ -398,8 +433,65 @@ theorem C09_obj (rnd : Int → UInt64) (h : Rounding rnd) (k : Kind) :
       (fun a b => (objCmpF sourceDiscipline (roundedOps rnd) (fuelFor a b) a b).getD 0) :=
   (C09_val rnd h k).pullback Obj.content (fun _ h => h.2)
     (fun a b _ hb => by
-      rw [C09_tuple_walk_content_partial (roundedOps rnd) (fuelFor a b) a b (by unfold fuelFor; omega) hb.1]; rfl)
+      rw [C09_tuple_walk_content_nodup (roundedOps rnd) (fuelFor a b) a b (by unfold fuelFor; omega) hb.1]; rfl)
     (fun _ _ _ _ => Iff.rfl)
+
+/-- **The narrowed hypothesis is strictly weaker than `nodup`** (second-round audit item 1, its C outputs): with
+    `b = tuple(one, one, two)` and `c = tuple(one, two, one)` as `obj` — both hold `one` twice, `nodup = false` — the walk is
+    clean, and the model's result is the content order, for `self` = `tuple(5)` (1), `tuple(1)` (-1), `tuple(1,1)` (-1: `self`
+    ends right after the step from the second `one`), `tuple(1,0)` (-1) against `b` and `tuple(1,2)` (-1), `tuple(1,2,0)` (-1)
+    against `c`; also one level down (`arrOfT` against an Array whose Tuple differs before the repeat).  Not clean:
+    `tuple(1,1,2)` against `b`, `tuple(1,2,1)` against `c` (C gives 1 and -1, the content order 0), `tuple(1,1)` against
+    `tuple(one,one)` (C gives -1, content order 0).  `walkClean` is the territory in which the CURSOR can go wrong, not the
+    result: against `sharedO = tuple(one,one,one)`, `self = tuple(1,1,5)` is outside it although the answer (1) happens to be right. -/
+theorem C09_walk_clean_beyond_nodup (ops : FloatOps UInt64) :
+    sharedT.nodup = false ∧ sharedC.nodup = false ∧
+    (∀ xs ∈ [[5], [1], [1, 1], [1, 0]], sharedT.walkClean ops (freshT xs) = true ∧
+      objCmpF sourceDiscipline ops 20 (freshT xs) sharedT = some (valCmp ops (freshT xs).content sharedT.content)) ∧
+    (∀ xs ∈ [[1, 2], [1, 2, 0], [0, 2, 1], []], sharedC.walkClean ops (freshT xs) = true ∧
+      objCmpF sourceDiscipline ops 20 (freshT xs) sharedC = some (valCmp ops (freshT xs).content sharedC.content)) ∧
+    objCmpF sourceDiscipline ops 20 (freshT [5]) sharedT = some 1 ∧ objCmpF sourceDiscipline ops 20 (freshT [1, 1]) sharedT = some (-1) ∧
+    objCmpF sourceDiscipline ops 20 (freshT [1, 2, 0]) sharedC = some (-1) ∧
+    arrOfT.walkClean ops (.cont .array [(12, .tuple [(3, wOne), (4, wTwo)])]) = true ∧
+    sharedT.walkClean ops (freshT [1, 1, 2]) = false ∧ sharedC.walkClean ops (freshT [1, 2, 1]) = false ∧
+    objCmpF sourceDiscipline ops 20 (freshT [1, 2, 1]) sharedC = some (-1) ∧ valCmp ops (freshT [1, 2, 1]).content sharedC.content = 0 ∧
+    sharedP.walkClean ops (freshT [1, 1]) = false ∧ objCmpF sourceDiscipline ops 20 (freshT [1, 1]) sharedP = some (-1) ∧
+    valCmp ops (freshT [1, 1]).content sharedP.content = 0 ∧
+    sharedO.walkClean ops (freshT [1, 1, 5]) = false ∧
+    objCmpF sourceDiscipline ops 20 (freshT [1, 1, 5]) sharedO = some (valCmp ops (freshT [1, 1, 5]).content sharedO.content) := by
+  refine ⟨rfl, rfl, ?_, ?_, ?_, ?_, ?_, ?_, ?_, ?_, ?_, ?_, ?_, ?_, ?_, ?_, ?_⟩
+  · intro xs hx
+    simp only [List.mem_cons, List.mem_nil_iff, or_false] at hx
+    rcases hx with rfl | rfl | rfl | rfl <;> exact ⟨by evalrfl, by evalrfl⟩
+  · intro xs hx
+    simp only [List.mem_cons, List.mem_nil_iff, or_false] at hx
+    rcases hx with rfl | rfl | rfl | rfl <;> exact ⟨by evalrfl, by evalrfl⟩
+  all_goals evalrfl
+
+/-- hence for any two objects that are clean against each other (in particular: whenever neither holds a repeated object,
+    but also `tuple(one, one, two)` against `tuple(1)`) `cmp` is antisymmetric in sign, and 0 one way exactly when the
+    contents are equal — for every kind, with the fuel the driver uses.  Reflexivity is what the finding takes away:
+    `sharedT.walkClean ops sharedT = false` and `cmp(x, x) = 1` (`C09_tuple_walk_content_refuted`). -/
+theorem C09_obj_pair_clean (rnd : Int → UInt64) (h : Rounding rnd) (k : Kind) (a b : Obj)
+    (ha : hasKind k a.content) (hb : hasKind k b.content)
+    (cab : b.walkClean (roundedOps rnd) a = true) (cba : a.walkClean (roundedOps rnd) b = true) :
+    let cmp := fun x y : Obj => (objCmpF sourceDiscipline (roundedOps rnd) (fuelFor x y) x y).getD 0
+    sgn (cmp a b) = - sgn (cmp b a) ∧ (cmp a b = 0 ↔ norm a.content = norm b.content) := by
+  intro cmp
+  have e1 : cmp a b = valCmp (roundedOps rnd) a.content b.content := by
+    show (objCmpF sourceDiscipline (roundedOps rnd) (fuelFor a b) a b).getD 0 = _
+    rw [C09_tuple_walk_content_partial (roundedOps rnd) (fuelFor a b) a b (by unfold fuelFor; omega) cab]; rfl
+  have e2 : cmp b a = valCmp (roundedOps rnd) b.content a.content := by
+    show (objCmpF sourceDiscipline (roundedOps rnd) (fuelFor b a) b a).getD 0 = _
+    rw [C09_tuple_walk_content_partial (roundedOps rnd) (fuelFor b a) b a (by unfold fuelFor; omega) cba]; rfl
+  rw [e1, e2]
+  exact ⟨(C09_val rnd h k).antisymm _ _ ha hb, (C09_val rnd h k).zero_iff _ _ ha hb⟩
+
+/-- the hypotheses are met by a pair inside the old exclusion: `tuple(one, one, two)` against `tuple(1)`, both ways round -/
+example (ops : FloatOps UInt64) :
+    hasKind (.seq .int) sharedT.content ∧ hasKind (.seq .int) (freshT [1]).content ∧ sharedT.nodup = false ∧
+    sharedT.walkClean ops (freshT [1]) = true ∧ (freshT [1]).walkClean ops sharedT = true := by
+  refine ⟨?_, ?_, rfl, by evalrfl, by evalrfl⟩ <;> simp [hasKind, sharedT, freshT, Obj.content, contents, wOne, wTwo]
 
 /-- **Known finding KF-C09-tuple-dup-obj: the full statement is refuted.** A Tuple that references one object from two slots
     as the RIGHT operand (`obj`) is walked through Tuple_Iter_Next, which finds the current element again by identity and so
@@ -407,7 +499,8 @@ theorem C09_obj (rnd : Int → UInt64) (h : Rounding rnd) (k : Kind) :
     against the Array `[1, 1, 2]` `cmp(x, arr) = 0` but `cmp(arr, x) = 1` (not antisymmetric).  The same one level down:
     `ax = new(Array, Tuple, x)` against `ay`, the Array of a Tuple of equal content over distinct objects, gives
     `cmp(ay, ax) = 1`, `cmp(ax, ay) = 0`, `cmp(ax, ax) = 1`; likewise for a List, and for a Tree with `x` as a value
-    (`cmp(tx, tx) = 1`).  All of these operands have `nodup = false`: they are exactly what `C09_obj` excludes. -/
+    (`cmp(tx, tx) = 1`).  All of these operands have `nodup = false` (what `C09_obj` excludes), and every one of these
+    comparisons is outside `walkClean` (what `C09_tuple_walk_content_partial` excludes). -/
 theorem C09_tuple_walk_content_refuted :
     (∀ ops : FloatOps UInt64, objCmpF sourceDiscipline ops 20 sharedT sharedT = some 1 ∧
       objCmpF sourceDiscipline ops 20 sharedT arr112 = some 0 ∧ objCmpF sourceDiscipline ops 20 arr112 sharedT = some 1 ∧
@@ -418,8 +511,12 @@ theorem C09_tuple_walk_content_refuted :
       objCmpF sourceDiscipline ops 20 treeOfT treeOfT = some 1 ∧ objCmpF sourceDiscipline ops 20 treeOfFresh treeOfT = some 1 ∧
       objCmpF sourceDiscipline ops 20 treeOfT treeOfFresh = some 0 ∧ valCmp ops treeOfT.content treeOfT.content = 0) ∧
     (sharedT.nodup = false ∧ arrOfT.nodup = false ∧ lstOfT.nodup = false ∧ treeOfT.nodup = false) ∧
+    (∀ ops : FloatOps UInt64, sharedT.walkClean ops sharedT = false ∧ sharedT.walkClean ops arr112 = false ∧
+      arrOfT.walkClean ops arrOfFresh = false ∧ arrOfT.walkClean ops arrOfT = false ∧ lstOfT.walkClean ops lstOfT = false ∧
+      treeOfT.walkClean ops treeOfT = false ∧ treeOfT.walkClean ops treeOfFresh = false) ∧
     ¬ C09_tuple_walk_content_statement := by
-  refine ⟨fun ops => ⟨rfl, rfl, rfl, rfl, rfl, rfl, rfl, rfl, rfl, rfl, rfl, rfl, rfl, rfl⟩, ⟨rfl, rfl, rfl, rfl⟩, fun h => ?_⟩
+  refine ⟨fun ops => ⟨rfl, rfl, rfl, rfl, rfl, rfl, rfl, rfl, rfl, rfl, rfl, rfl, rfl, rfl⟩, ⟨rfl, rfl, rfl, rfl⟩,
+    fun ops => ⟨by evalrfl, by evalrfl, by evalrfl, by evalrfl, by evalrfl, by evalrfl, by evalrfl⟩, fun h => ?_⟩
   have h1 := h refFloatOps 20 arrOfT arrOfT (by decide)
   have h2 : objCmpF sourceDiscipline refFloatOps 20 arrOfT arrOfT = some 1 := rfl
   rw [h2] at h1
@@ -453,7 +550,8 @@ theorem C09_tuple_identity_walk_refuted :
 
 /-- the bodies of Array_Cmp, List_Cmp, Tuple_Cmp, Tree_Cmp, String_Cmp, Type_Cmp, of `cmp` itself, of the iterator functions
     the loops start from and go through (X_Iter_Init / X_Iter_Next of Array, List, Tuple, Tree), of Tree_Get, of the accessors
-    `c_int` / `c_float` / Int_C_Int / Float_C_Float that Int_Cmp / Float_Cmp read their operands through, and of Tuple_Assign
+    `c_int` / `c_float` / Int_C_Int / Float_C_Float that Int_Cmp / Float_Cmp read their operands through, of `c_str` / String_C_Str
+    (String_Cmp's), and of Tuple_Assign
     (how a container copies a Tuple element: the item pointers — `Obj.cont`, `Obj.tree`) are, up to white space, the texts
     `lexCmp` / `pairsCmp` / `bytesCmp` / `cmpTop` / `loopF` / `treeLoopF` / `iterNext` were written against -/
 theorem C09_loops_as_modelled :
@@ -473,8 +571,10 @@ theorem C09_loops_as_modelled :
     CelloGen.CmpLoops.cIntText = CelloGen.CmpLoops.cIntModelled ∧ CelloGen.CmpLoops.cFloatText = CelloGen.CmpLoops.cFloatModelled ∧
     CelloGen.CmpLoops.intCIntText = CelloGen.CmpLoops.intCIntModelled ∧
     CelloGen.CmpLoops.floatCFloatText = CelloGen.CmpLoops.floatCFloatModelled ∧
-    CelloGen.CmpLoops.tupleAssignText = CelloGen.CmpLoops.tupleAssignModelled :=
-  ⟨rfl, rfl, rfl, rfl, rfl, rfl, rfl, rfl, rfl, rfl, rfl, rfl, rfl, rfl, rfl, rfl, rfl, rfl, rfl, rfl, rfl⟩
+    CelloGen.CmpLoops.tupleAssignText = CelloGen.CmpLoops.tupleAssignModelled ∧
+    CelloGen.CmpLoops.cStrText = CelloGen.CmpLoops.cStrModelled ∧
+    CelloGen.CmpLoops.stringCStrText = CelloGen.CmpLoops.stringCStrModelled :=
+  ⟨rfl, rfl, rfl, rfl, rfl, rfl, rfl, rfl, rfl, rfl, rfl, rfl, rfl, rfl, rfl, rfl, rfl, rfl, rfl, rfl, rfl, rfl, rfl⟩
 
 /-- the discipline the model is run with is the one of the source: Array_Cmp and List_Cmp go through their iterators,
     Tuple_Cmp by slot index -/
